@@ -27,7 +27,7 @@ class Exchange(ManagementHandler):
             API_EXCHANGE
             % (
                 virtual_host,
-                exchange)
+                quote(exchange, ''))
         )
 
     def list(self, virtual_host='/', show_all=False,
@@ -92,7 +92,7 @@ class Exchange(ManagementHandler):
         return self.http_client.put(API_EXCHANGE %
                                     (
                                         quote(virtual_host, ''),
-                                        exchange
+                                        quote(exchange, '')
                                     ),
                                     payload=exchange_payload)
 
@@ -111,7 +111,7 @@ class Exchange(ManagementHandler):
         return self.http_client.delete(API_EXCHANGE %
                                        (
                                            virtual_host,
-                                           exchange
+                                           quote(exchange, '')
                                        ))
 
     def bindings(self, exchange, virtual_host='/'):
@@ -129,7 +129,7 @@ class Exchange(ManagementHandler):
         return self.http_client.get(API_EXCHANGE_BINDINGS %
                                     (
                                         virtual_host,
-                                        exchange
+                                        quote(exchange, '')
                                     ))
 
     def bind(self, destination='', source='', routing_key='', virtual_host='/',
@@ -159,8 +159,8 @@ class Exchange(ManagementHandler):
         return self.http_client.post(API_EXCHANGE_BIND %
                                      (
                                          virtual_host,
-                                         source,
-                                         destination
+                                         quote(source, ''),
+                                         quote(destination, '')
                                      ),
                                      payload=bind_payload)
 
@@ -187,11 +187,12 @@ class Exchange(ManagementHandler):
             'vhost': virtual_host
         })
         virtual_host = quote(virtual_host, '')
+        properties_key = quote(properties_key or routing_key, '')
         return self.http_client.delete(API_EXCHANGE_UNBIND %
                                        (
                                            virtual_host,
-                                           source,
-                                           destination,
-                                           properties_key or routing_key
+                                           quote(source, ''),
+                                           quote(destination, ''),
+                                           properties_key
                                        ),
                                        payload=unbind_payload)
